@@ -709,6 +709,25 @@ def install(names=None):
                 e = _expected_sigs([p[nm] for p in pre])
                 if e is None:
                     vac("merge", "signatures_" + nm)
+                    # two different signatures of one kind share a tick: which of them ends up in force is a matter of the
+                    # canonical order, but each of them "does not repeat the one in force" unless it equals the value that was in
+                    # force before that tick — so at most that one value may be missing there
+                    g = orc.sig_changes(timed, kind_)
+                    byt = collections.defaultdict(set)
+                    for p_ in pre:
+                        for (t, v) in p_[nm]:
+                            byt[t].add(v)
+                    bad = None
+                    for t, vals in sorted(byt.items()):
+                        if len(vals) < 2:
+                            continue
+                        have = set(v for (tt, v) in g if tt == t)
+                        before = [v for (tt, v) in g if tt < t]
+                        missing = vals - have
+                        if missing and not (len(missing) == 1 and before and next(iter(missing)) == before[-1]):
+                            bad = (t, sorted(map(str, vals)), sorted(map(str, have)), str(before[-1]) if before else None)
+                            break
+                    rec("C15", "merge", "signatures_same_tick_kept_" + nm, bad is None, bad)
                 else:
                     g = orc.sig_changes(timed, kind_)
                     rec("C15", "merge", "signatures_" + nm, g == e, (e[:4], g[:4]))
